@@ -32,12 +32,19 @@ pub fn eval(op: &str, a: &[&str]) -> Option<String> {
 }
 
 pub fn gen(ctx: &Ctx, rng: &mut Rng, out: &mut Vec<String>) {
+    // call histories on one spectrum object (queries, in-place edits, clones, replacement by its own fold / marginal / projection)
+    crate::stat::gen_hist(rng, if ctx.tier_thorough { 600 } else { 60 }, 4, out);
     let mut shp = if ctx.tier_thorough { shapes::all_shapes(1, 4, 1, 7) } else {
         let mut s = shapes::all_shapes(1, 4, 1, 4);
         s.extend(shapes::all_shapes(1, 2, 5, 7));
         for _ in 0..60 { s.push(shapes::random_shape(rng, 1, 4, 1, 7, 2500)); }
         s
     };
+    // size sweeps: every 1-axis length up to 300 (thorough 700), two-axis shapes with one long axis, and shapes with 5-8 short axes
+    let top = if ctx.tier_thorough { 700 } else { 300 };
+    for n in 8..=top { if n <= 64 || n % 3 == 0 || ctx.tier_thorough { shp.push(vec![n]); } }
+    for n in 8..=(top / 3) { if n % 2 == 1 || ctx.tier_thorough { shp.push(vec![n, 2]); shp.push(vec![2, n]); shp.push(vec![3, n]); } }
+    for d in 5..=8usize { shp.push(vec![2; d]); let mut m = vec![2; d]; m[d / 2] = 1; m[0] = 3; shp.push(m); shp.push((0..d).map(|k| 1 + (k % 3)).collect()); }
     shp.sort(); shp.dedup();
     shp.sort_by_key(|s| (s.iter().product::<usize>(), s.len()));
     let fills = ["nan", "zero", "minus-one", "inf"];
